@@ -141,7 +141,9 @@ class Call:
         P = self.PAD
         self.scalar = scalar
         nanv = np.nan if dt.kind != "c" else complex(np.nan, np.nan)
-        self.A = moat(np.asarray(A0, dtype=dt).ravel(), P, CANARY)
+        # the moat around A is as wide as A itself (at least 64 entries): a wrong stride or offset lands in the canaries, not in the heap
+        self.PA = max(64, int(np.asarray(A0).size))
+        self.A = moat(np.asarray(A0, dtype=dt).ravel(), self.PA, CANARY)
         self.w = moat(np.asarray(w, dtype=dt).ravel(), P, nanv)
         self.c = moat(np.asarray(c, dtype=dt).ravel(), P, nanv)
         self.X = moat(np.asarray(X, dtype=rdt).ravel(), P, np.nan)
@@ -159,18 +161,18 @@ class Call:
         def ptr(t, b, itemsize):
             return FFI.cast(t + "*", b.ctypes.data + P * itemsize)
 
-        fn(ptr(ct, self.A, self.A.itemsize), ptr(ct, self.w, self.w.itemsize), ptr(ct, self.c, self.c.itemsize),
+        fn(FFI.cast(ct + "*", self.A.ctypes.data + self.PA * self.A.itemsize), ptr(ct, self.w, self.w.itemsize), ptr(ct, self.c, self.c.itemsize),
            ptr(rt, self.X, self.X.itemsize),
            FFI.NULL if self.null_entity else ptr("int", self.ent, 4),
            FFI.NULL if self.null_entity else ptr("uint8_t", self.perm, 1), FFI.NULL)
 
     def result(self):
-        return self.A[self.PAD:self.PAD + self.nA].copy()
+        return self.A[self.PA:self.PA + self.nA].copy()
 
     def breaches(self):
         """Writes outside A's extent or into inputs."""
         out = []
-        P = self.PAD
+        P = self.PA
         if not (np.all(self.A[:P] == CANARY) and np.all(self.A[P + self.nA:] == CANARY)):
             out.append("write outside the extent of A")
         for name, b, c0 in zip(("w", "c", "coordinate_dofs", "entity_local_index", "quadrature_permutation"),
